@@ -10,10 +10,22 @@ TRUST = ("Apply mirrors baseapp's per-message branch/commit; cosmos-sdk store/IA
 
 # id -> (built?, category, technique, text, design_ref, extra note)
 CHECKS = {
+ "C02": (True, "model_checking", "explicit-state BFS to closure of the used-nonce lattice + exhaustive ordered-pair key grid",
+         "All used-nonce sets over a small (domain, nonce) universe are reached by real receives with differing bodies, attestation encodings and submitters, interleaved with pausing, "
+         "attester rotation and re-linking; a second receive for a used pair must fail; single query, paginated list and export must equal the history in every state; key injectivity over a boundary grid by behaviour.", "5 C02", ""),
  "C03": (True, "model_checking", "exhaustive product enumeration of acceptance-condition vectors over the real receive handler",
          "Every combination of acceptance-condition values (configuration built by real admin transactions x message fields) is submitted to the real "
          "handler on real bank/fiattokenfactory keepers; success must equal the conjunction computed by the reference model, rejected receives must leave all four stores byte-identical.",
          "5 C03", ""),
+ "C04": (True, "model_checking", "product enumeration of burn messages + explicit-state BFS with a conservation invariant",
+         "Every (amount, recipient, token, stored denom, caller) case is judged on the recorded Mint request to the real fiattokenfactory, the bank ledger and both events; "
+         "a BFS interleaving receives with every other transaction type checks total minted == sum over distinct accepted burn messages in every state.", "5 C04", ""),
+ "C05": (True, "model_checking", "explicit-state BFS with ledger conservation invariant on the real bank/fiattokenfactory",
+         "All histories up to the depth over deposits, sends (incl. burn-message imitations), replacements and pausing: supply destroyed == sum of burn amounts over distinct module-sent nonces, "
+         "only the depositor is debited, nothing stays in the module account, sender rule for every emitted message.", "5 C05", ""),
+ "C07": (True, "model_checking", "explicit-state BFS over interleavings of succeeding/failing outbound transactions from several start counters",
+         "Every interleaving up to depth 6 (quick) / 10 (thorough) of succeeding and failing sends, deposits (incl. failures after the reservation / after the burn) and replacements: "
+         "k-th success carries start+k-1 in response and emitted bytes, the query equals start+#successes in every state, replacements reuse the original nonce.", "5 C07", ""),
  "C08": (True, "model_checking", "exhaustive product enumeration of precondition vectors over the real deposit handlers",
          "Every combination of configuration (limit, flags, max body, denom spelling, burn-side state) and request (amount boundaries, token, recipient, caller, depositor, destination) "
          "is executed; success iff the documented conjunction, with 'can pay'/'burn succeeds' answered by a dry run on the real ledger.", "5 C08", ""),
@@ -29,6 +41,9 @@ CHECKS = {
          "Every state reachable by enable/disable/update-threshold sequences over a 3-key (quick) / 4-key (thorough) universe with extra "
          "spellings, from every start state with 1<=t<=|E|, is visited; the invariant and agreement with a reference model are checked in "
          "every state, a three-valued step oracle on every transition.", "5 C13", ""),
+ "C14": (True, "fault_enumeration", "exhaustive fault-plan enumeration ({none,before,after}^calls) at every state of a bounded BFS",
+         "At every history point each money-moving transaction is run under every subset of its dependency calls failing before/after taking effect, and under every late validation failure after the burn; "
+         "a failure must surface as an error (state and events then equal the pre-state), a success must have had nil results from all dependency calls and an emitted message / marked nonce.", "5 C14", ""),
  "C16": (True, "model_checking", "exhaustive enumeration of byte strings and field values against an independent reference codec",
          "Every length 0..N x structured patterns incl. a walking byte at every position, and the product of boundary field values x field sizes, are decoded/encoded by the "
          "implementation and by an independent codec written from the stated layout; results must agree and round-trip.", "5 C16", ""),
